@@ -137,6 +137,51 @@ Join(toks, k, ws) ==
 
 Unparse(e, st) == Join(ET(e, st), 1, st.ws)
 
+(***************************************************************************)
+(* A reader for the operator fragment of the grammar (productions          *)
+(* [21]-[27], operands: numbers and parenthesized expressions), written    *)
+(* directly from the productions as a precedence-climbing parser over      *)
+(* token sequences.  It is independent of NeedsParens: MC_XPath checks     *)
+(* that reading back the tokens of Unparse gives the abstract expression   *)
+(* again (so a wrong entry in the precedence table, a wrong associativity  *)
+(* or a missing parenthesis in the unparser is caught at the specification *)
+(* level, before any implementation is involved).                          *)
+(***************************************************************************)
+BinOps == {"or", "and", "=", "!=", "<", "<=", ">", ">=", "+", "-", "*", "div", "mod", "|"}
+OpPrec(o) == Prec([t |-> "bin", op |-> o])
+IsBinOpTok(t) == \E o \in BinOps : OpTok(o) = t
+OpOfTok(t) == CHOOSE o \in BinOps : OpTok(o) = t
+IsNumTok(t) == t.w = "word" /\ IsNumberLex(t.s)
+
+\* results are records [e |-> expression, p |-> index of the next unread token]; p = 0 signals a syntax error
+SyntaxError == [t |-> "syntax-error"]
+RECURSIVE ReadExpr(_, _, _)
+RECURSIVE ReadLoop(_, _, _, _)
+RECURSIVE ReadUnary(_, _)
+ReadPrimary(toks, p) ==
+  IF p > Len(toks) THEN [e |-> SyntaxError, p |-> 0]
+  ELSE IF toks[p] = Sy("(")
+       THEN LET r == ReadExpr(toks, p + 1, 1)
+            IN  IF r.p = 0 \/ r.p > Len(toks) \/ toks[r.p] # Sy(")") THEN [e |-> SyntaxError, p |-> 0] ELSE [e |-> r.e, p |-> r.p + 1]
+  ELSE IF IsNumTok(toks[p]) THEN [e |-> [t |-> "num", n |-> StrToNum(toks[p].s)], p |-> p + 1]
+  ELSE [e |-> SyntaxError, p |-> 0]
+\* UnaryExpr ::= UnionExpr | '-' UnaryExpr
+ReadUnary(toks, p) ==
+  IF p <= Len(toks) /\ toks[p] = MinusTok
+  THEN LET r == ReadUnary(toks, p + 1) IN IF r.p = 0 THEN r ELSE [e |-> [t |-> "neg", e |-> r.e], p |-> r.p]
+  ELSE LET r == ReadPrimary(toks, p) IN IF r.p = 0 THEN r ELSE ReadLoop(toks, r.e, r.p, 8)
+\* left-associative operators of precedence >= min applied to the operand read so far
+ReadLoop(toks, lhs, p, min) ==
+  IF p <= Len(toks) /\ IsBinOpTok(toks[p]) /\ OpPrec(OpOfTok(toks[p])) >= min
+  THEN LET o == OpOfTok(toks[p])
+           r == IF OpPrec(o) >= 7 THEN ReadPrimary(toks, p + 1) ELSE ReadExpr(toks, p + 1, OpPrec(o) + 1)
+       IN  IF r.p = 0 THEN r ELSE ReadLoop(toks, [t |-> "bin", op |-> o, l |-> lhs, r |-> r.e], r.p, min)
+  ELSE [e |-> lhs, p |-> p]
+ReadExpr(toks, p, min) ==
+  LET u == ReadUnary(toks, p) IN IF u.p = 0 THEN u ELSE ReadLoop(toks, u.e, u.p, min)
+\* the expression a token sequence denotes, or SyntaxError
+Read(toks) == LET r == ReadExpr(toks, 1, 1) IN IF r.p = Len(toks) + 1 THEN r.e ELSE SyntaxError
+
 \* all spellings of an expression, the canonical one (unabbreviated, no optional white space,
 \* minimal parentheses) first
 StyleSeq == << Canonical,
